@@ -115,38 +115,38 @@ Fixpoint inserter_fn (s : Z) (tos : list tocfg) (j : nat) (view : record) : M (o
       end
   end.
 
-(* timeout.go processTimeout for every configured timeout of the status, on the snapshot [r] *)
-Fixpoint process_timeouts (inst : Z) (u : eunit) (s : Z) (n : Z) (tos : list tocfg) (j : nat) (r : record) (t : trec) : M unit :=
+(* timeout.go pollTimeouts, the loop over the configured timeouts of the status for one due timer [t]: each timeout
+   function acts on the run as re-read now (after the repair of F14); [true] = go on with the next configuration *)
+Fixpoint process_timeouts (inst : Z) (u : eunit) (s : Z) (n : Z) (tos : list tocfg) (j : nat) (t : trec) : M unit :=
   match tos with
   | [] => ret tt
   | tc :: tl =>
-    if negb (to_status tc =? s) then process_timeouts inst u s n tl j r t
+    if negb (to_status tc =? s) then process_timeouts inst u s n tl j t
     else
-      view <- build_run r ;;
-      out <- invoke (UFTimeout s j) (to_beh tc) s view ;;
-      let '(obj', oc, ctl) := out in
-      (match oc with
-       | inr oe => maybe_pause inst n oe u ctl ;;; ret tt
-       | inl z => if skip_status z then ret tt
-                  else updater (t_status t) z (set_obj view obj') ;;; p_tcomplete (t_id t)
-       end) ;;;
-      process_timeouts inst u s n tl (S j) view t
+      r <- p_lookup (t_run t) ;;
+      match r with
+      | None => fail EGen
+      | Some r =>
+        if negb (r_status r =? s) || rs_finished (r_state r) then p_tcancel (t_id t)
+        else if rs_stopped (r_state r) then ret tt
+        else
+          view <- build_run r ;;
+          out <- invoke (UFTimeout s j) (to_beh tc) s view ;;
+          let '(obj', oc, ctl) := out in
+          (match oc with
+           | inr oe => maybe_pause inst n oe u ctl ;;; ret tt
+           | inl z => if skip_status z then ret tt
+                      else updater (t_status t) z (set_obj view obj') ;;; p_tcomplete (t_id t)
+           end) ;;;
+          process_timeouts inst u s n tl (S j) t
+      end
   end.
 
 (* timeout.go pollTimeouts: the body of one poll cycle, after ListValid returned [l] *)
 Fixpoint poll_timers (inst : Z) (u : eunit) (s : Z) (n : Z) (l : list trec) : M unit :=
   match l with
   | [] => ret tt
-  | t :: tl =>
-    r <- p_lookup (t_run t) ;;
-    match r with
-    | None => fail EGen
-    | Some r =>
-      (if negb (r_status r =? s) || rs_finished (r_state r) then p_tcancel (t_id t)
-       else if rs_stopped (r_state r) then ret tt
-       else process_timeouts inst u s n (ec_tos c) 0 r t) ;;;
-      poll_timers inst u s n tl
-    end
+  | t :: tl => process_timeouts inst u s n (ec_tos c) 0 t ;;; poll_timers inst u s n tl
   end.
 
 (* hook.go runHook *)
